@@ -142,10 +142,11 @@ CLAIMS = {
  },
  'C11': {
   'category': 'proof',
-  'technique': 'Lean 4 lemmas on the three writers of the comment list (comment loop appends, goback truncates exactly, scanner step neutral) + comment-injection differential with the layout engine\'s own comment list as oracle',
-  'text': 'Proved for every parser state: goback keeps exactly the comments that start before the restored position (goback_comments), the comment loop of next() only appends (commentLoop_appends), a raw scanner step does not touch the list, and a comment token\'s text is the source text at its offset. '
+  'technique': 'Lean 4 whole-parser invariant (Hoare logic, induction on fuel): the comment list of an accepted file is strictly increasing in position (each comment at most once, in source order); lemmas on the three writers of the list + comment-injection differential with the layout engine\'s own comment list as oracle',
+  'text': 'parseFile_comments_sorted (Props/HoareMain.lean): for every text, profile and fuel, if parse_file accepts then the offsets of File.comments are strictly increasing: the invariant (list sorted, all before the scanner position) is carried through every production, every goback, line_end_comment and every caught error. '
+          'Proved for every parser state: goback keeps exactly the comments that start before the restored position (goback_comments), the comment loop of next() only appends (commentLoop_appends), a raw scanner step does not touch the list, and a comment token\'s text is the source text at its offset. '
           'The end-to-end statement File.comments = comments of the source is decided by execution: generated programs and the token lists of all corpus programs are rendered with line and general comments at random gaps up to every gap (including inside re-read type-parameter lists, array lengths with struct literals, interface and struct bodies, after struct fields on the same line), and the returned list must equal the (offset, text) list the layout engine wrote, in order. Partial proof.',
-  'note': 'The invariant comments = comment tokens before the scanner position, through all productions, is not a theorem yet; line_end_comment is covered by correspondence only.',
+  'note': 'That no comment is missing (the list is the complete list of comment tokens) is not a theorem; it is decided by the layout oracle.',
  },
  'C12': {
   'category': 'proof',
